@@ -27,6 +27,7 @@ pub trait Area: Sync {
 fn area(name: &str) -> Box<dyn Area> {
     match name {
         "lc" => Box::new(lc::Lc),
+        "lc8" => Box::new(lc::Lc8),
         "dp" => Box::new(dp::Dp),
         "srt" => Box::new(srt::Srt),
         "chn" => Box::new(chn::Chn),
